@@ -97,6 +97,13 @@ theorem C04_window_queue (pf vf : Nat) (body : List Instr) (text : Bytes) (cl : 
   rw [C04_scan_uses_queue_as_written] at hall ⊢
   exact C04_window pf vf body text cl hlast A hall
 
+/-- the queue as written is first-in first-out: any sequence of `Push` followed by as many `Pop` returns the pushed
+values in order and leaves it empty; further `Pop`s return nil -/
+theorem C04_queue_fifo (xs : List Match) (k : Nat) :
+    Ds.Queue.popN (xs.length + k) (xs.foldl Ds.Queue.push (Ds.Queue.new : Ds.Queue Match)) =
+      (xs.map some ++ List.replicate k none, ⟨[]⟩) :=
+  Ds.fifo xs k
+
 /-- non-vacuity: 1 2 3 4 through `Limit(2)` after every push leaves 3 4 -/
 example : ([1, 2, 3, 4].foldl (fun q m => (q.push m).limit 2) (Ds.Queue.new : Ds.Queue Nat)).contents = [3, 4] := by decide
 
@@ -107,6 +114,7 @@ example : ([1, 2, 3, 4].foldl (fun q m => (q.push m).limit 2) (Ds.Queue.new : Ds
 #print axioms C04_queue_step
 #print axioms C04_queue_last_n
 #print axioms C04_queue_limit
+#print axioms C04_queue_fifo
 #print axioms C04_scan_uses_queue_as_written
 #print axioms C04_window_queue
 
